@@ -106,8 +106,7 @@ type Sim struct {
 	tokenKind []uint8
 	tokenGen  []int32
 
-	Events    []Ev
-	EvDropped int
+	nEvents int64
 
 	// lifecycle observation (written on engine goroutines, read by actors
 	// at their own instants)
@@ -137,6 +136,7 @@ type Sim struct {
 	BookWorkers  int
 	BookGrants   []uint32 // worker token per lock grant
 	bookCur      uint64
+	grantSeq     uint64
 
 	hash uint64
 }
@@ -152,7 +152,6 @@ func NewSim(seed uint64, cost CostModel) *Sim {
 		firstSlot: make([]int64, maxTokens),
 		tokenKind: make([]uint8, maxTokens),
 		tokenGen:  make([]int32, maxTokens),
-		Events:    make([]Ev, 0, 4096),
 		termSeen:  make(map[string]struct{}),
 		BookRng:   NewPRNG(seed, "book"),
 		hash:      1469598103934665603,
@@ -257,30 +256,35 @@ func (s *Sim) ActorSleep(off int, gapNs int64) {
 	s.sleepUntil(s.ActorWake(off, gapNs))
 }
 
+// record folds an event into the determinism fingerprint. The fingerprint
+// is a commutative sum of per-event hashes (each includes the fake instant),
+// so that the order in which two goroutines of one hand-off window reach the
+// recorder does not matter.
+//
 //go:norace
 func (s *Sim) record(kind int, tok uint64) {
-	e := Ev{T: s.Now(), Kind: kind, Tok: tok, Gen: s.SearchGen}
-	if len(s.Events) < maxEvents {
-		s.Events = append(s.Events, e)
-	} else {
-		s.EvDropped++
-	}
-	h := s.hash
-	h = (h ^ uint64(e.T)) * 1099511628211
+	h := uint64(1469598103934665603)
+	h = (h ^ uint64(s.Now())) * 1099511628211
 	h = (h ^ uint64(kind)) * 1099511628211
 	h = (h ^ tok) * 1099511628211
-	s.hash = h
+	harnessLock()
+	s.hash += mix64(h)
+	s.nEvents++
+	harnessUnlock()
 }
 
 // MixHash folds harness-level observations into the determinism hash.
 //
 //go:norace
 func (s *Sim) MixHash(b []byte) {
-	h := s.hash
+	h := uint64(1469598103934665603)
+	h = (h ^ uint64(s.Now())) * 1099511628211
 	for _, c := range b {
 		h = (h ^ uint64(c)) * 1099511628211
 	}
-	s.hash = h
+	harnessLock()
+	s.hash += mix64(h)
+	harnessUnlock()
 }
 
 // TraceHash is the determinism fingerprint of the run so far.
@@ -550,7 +554,8 @@ func (s *Sim) bookGrant(w uint64) {
 	if len(s.BookGrants) < 1<<20 {
 		s.BookGrants = append(s.BookGrants, uint32(w))
 	}
-	h := s.hash
-	h = (h ^ w) * 1099511628211
-	s.hash = h
+	harnessLock()
+	s.grantSeq++
+	s.hash += mix64(w*1099511628211 ^ s.grantSeq)
+	harnessUnlock()
 }
